@@ -5,7 +5,7 @@ import filter_functions as ff
 from filter_functions import numeric
 
 from .. import gens
-from ..common import arr2bits, bits2arr, driver, f2b
+from ..common import arr2bits, bits2arr, corr_script, driver, f2b
 
 THEOREMS = '''nested_global secondOrderEntry_unfold secondOrder_case1 secondOrder_case2
 secondOrder_case3 secondOrderEntry_eq_nested secondOrderIntegral_eq_nested case1_to_case2_bound
@@ -14,7 +14,20 @@ ff2_plus_adjoint secondOrderEntry_plus_adjoint
 secondOrderFF_entry secondOrderFF_plus_adjoint_of_segments secondOrderStep_plus_adjoint
 secondOrderFF_plus_adjoint secondOrderFFFromScratch_plus_adjoint'''.split() + [
     'FFVerif.C07.cleanup_freq', 'FFVerif.C07.getFF_spec', 'FFVerif.C07.served_value_is_fresh']
-LEAN_MODULES = ['FFVerif.Props.C10', 'FFVerif.Props.C10Asm', 'FFVerif.Props.C07']
+LEAN_MODULES = ['FFVerif.Props.C10', 'FFVerif.Props.C10Asm', 'FFVerif.Props.C07', 'FFVerif.Props.C10Shifts']
+# module C10Shifts: calculate_frequency_shifts (model Shifts) = trapezoid of S x F2 / 2 pi for the three spectrum
+# shapes, depends only on the F2 values (reuse of intermediates), basis change, Hermitian part = decay amplitudes
+THEOREMS = THEOREMS + [
+    'FFVerif.C10.frequency_shifts_entries', 'FFVerif.C10.frequency_shifts_single_spectrum_is_broadcast',
+    'FFVerif.C10.frequency_shifts_subset_is_slice', 'FFVerif.C10.frequency_shifts_linear_in_spectrum',
+    'FFVerif.C10.frequency_shifts_congr_intermediates', 'FFVerif.C10.frequency_shifts_congr',
+    'FFVerif.C10.frequency_shifts_intermediates_reused', 'FFVerif.C10.secondOrderFF_loop_basis_change',
+    'FFVerif.C10.secondOrderFF_basis_change_of_mix', 'FFVerif.C10.secondOrderFF_basis_change',
+    'FFVerif.C10.frequency_shifts_basis_change', 'FFVerif.C10.frequency_shifts_basis_change_matrix',
+    'FFVerif.C10.frequency_shifts_basis_change_from_scratch', 'FFVerif.C10.etm_basis_change_second_order_from_scratch',
+    'FFVerif.C10.frequency_shifts_hermitian_part', 'FFVerif.C10.frequency_shifts_hermitian_part_from_scratch',
+    'FFVerif.C10.frequency_shifts_symmetric_part', 'FFVerif.C10.cumulant_uses_antisymmetric_part',
+    'FFVerif.C10.cumulant_single_qubit_uses_antisymmetric_part', 'FFVerif.C10.cumulant_second_order_from_antisymmetric_part']
 PINS = ['pinFrequencyShifts', 'C10_secondOrder_source_shape', 'C10_secondOrderFF_source_shape', 'C07_body_cache_filter_function', 'C07_body_get_filter_function',
         'C07_body_get_control_matrix']
 GEN_SITES = ['cache:cleanup', 'const:numeric._second_order_integral',
@@ -46,6 +59,8 @@ def soi_py(E, ev, dt):
 
 
 def correspondence(ctx):
+    # calculate_frequency_shifts (fresh pulse and pulse with cached intermediates) vs the model Shifts
+    corr_script(ctx, 'corr_c10shifts', ['python/fresh-vs-cached', 'shifts/', 'shiftsfs'])
     rng = ctx.rng('corr')
     n = 10 if ctx.tier == 'quick' else 150
     lines, refs = [], []
